@@ -45,6 +45,14 @@ func scaleCases(tier string) []scalekit.Case {
 			out = append(out, scalekit.Case{Shape: "names-that-concatenate-alike", N: n, V: v})
 		}
 	}
+	// n modules that share one prefix (variant 0; 1: a prefix each; 2: shared, the members reached
+	// through typedefs), each with an identity of the same name, all of them bases of the identityref
+	// members of one union
+	for n := 2; n <= 6; n++ {
+		for v := 0; v < 3; v++ {
+			out = append(out, scalekit.Case{Shape: "union-of-identityrefs-with-equal-prefixed-names", N: n, V: v})
+		}
+	}
 	maxK := 7
 	if tier == "thorough" {
 		maxK = 8
@@ -249,7 +257,59 @@ func checkConcat(cs scalekit.Case) scalekit.Verdict {
 	return scalekit.OK()
 }
 
+// union-of-identityrefs-with-equal-prefixed-names: every member of the union is there, in written
+// order, and stands for the identity its base names - with the derivations of that one.
+func checkUnionOfIdentityrefs(cs scalekit.Case) scalekit.Verdict {
+	var files []dump.File
+	var user strings.Builder
+	user.WriteString(`module user { namespace "urn:user"; prefix user;`)
+	for i := 0; i < cs.N; i++ {
+		pfx := "p"
+		if cs.V == 1 {
+			pfx = fmt.Sprintf("p%d", i)
+		}
+		files = append(files, dump.File{Name: fmt.Sprintf("a%d.yang", i), Text: fmt.Sprintf(`module a%d { namespace "urn:a%d"; prefix %s; identity kind; identity d%d { base kind; } typedef ref { type identityref { base kind; } } }`, i, i, pfx, i)})
+		fmt.Fprintf(&user, " import a%d { prefix q%d; }", i, i)
+	}
+	user.WriteString(" leaf either { type union {")
+	for i := 0; i < cs.N; i++ {
+		if cs.V == 2 {
+			fmt.Fprintf(&user, " type q%d:ref;", i)
+		} else {
+			fmt.Fprintf(&user, " type identityref { base q%d:kind; }", i)
+		}
+	}
+	user.WriteString(" } } }")
+	files = append(files, dump.File{Name: "user.yang", Text: user.String()})
+	for _, rev := range []bool{false, true} {
+		ms, errs, lerr := scalekit.Load(files, rev)
+		if lerr != nil || len(errs) > 0 {
+			return scalekit.Bad("spurious-errors", "loads and processes", fmt.Sprint(lerr, dump.Errors(errs)))
+		}
+		e := yang.ToEntry(ms.Modules["user"]).Dir["either"]
+		if e == nil || e.Type == nil || e.Type.Kind != yang.Yunion {
+			return scalekit.Bad("union-members-wrong", "a union", "none")
+		}
+		if len(e.Type.Type) != cs.N {
+			return scalekit.Bad("union-members-wrong", fmt.Sprintf("%d identityref members, one per base", cs.N), fmt.Sprintf("%d: %s", len(e.Type.Type), dump.Type(e.Type, 0)))
+		}
+		for i, m := range e.Type.Type {
+			want := ms.Modules[fmt.Sprintf("a%d", i)].Identity[0]
+			if m.Kind != yang.Yidentityref || m.IdentityBase != want {
+				return scalekit.Bad("union-members-wrong", fmt.Sprintf("member %d: identityref of a%d's kind", i, i), dump.Type(m, 0))
+			}
+			if len(m.IdentityBase.Values) != 1 || m.IdentityBase.Values[0].Name != fmt.Sprintf("d%d", i) {
+				return scalekit.Bad("values-differ-from-reverse-reachability", fmt.Sprintf("member %d offers d%d", i, i), dump.Type(m, 0))
+			}
+		}
+	}
+	return scalekit.OK()
+}
+
 func checkScale(cs scalekit.Case) scalekit.Verdict {
+	if cs.Shape == "union-of-identityrefs-with-equal-prefixed-names" {
+		return checkUnionOfIdentityrefs(cs)
+	}
 	if cs.Shape == "names-that-concatenate-alike" {
 		return checkConcat(cs)
 	}
